@@ -36,6 +36,9 @@ public:
         uba_dbl>std::numeric_limits<int>::max())
       MP_RAISE("MP2MIP: AllDiff on variables with domain "
                "out of integer range not implemented");
+    for (auto a: args)       // the unary encoding below enumerates integer values
+      if (!GetMC().is_var_integer(a))
+        MP_RAISE("MP2MIP: AllDiff on non-integer variables not implemented");
     const int lba = (int)std::round(lba_dbl);
     const int uba = (int)std::round(uba_dbl);
     std::vector<double> coefs(args.size(), 1.0);
